@@ -910,3 +910,78 @@ def property_setter_mismatches(ctx, classes):
             if sa != rx.attr:
                 bad.append((c, name, rx.attr, sa, st))
     return n, bad
+
+
+def bound_from(ctx, fn, expr, at_node, short, index=None):
+    """`expr` is a local whose unique definition reaching `at_node` is a call resolving to `short` - directly
+    (index None) or as element `index` of a tuple-unpacking assignment.  Spelling-independent way to say
+    "the handle returned by Cluster.deserialize", "the rows returned by _get_results", ..."""
+    if not isinstance(expr, ast.Name) or at_node is None:
+        return False
+    ud = ctx.rd(fn).unique_def(at_node, expr.id)
+    if ud is None:
+        return False
+    val = ud[1]
+    if isinstance(val, tuple) and val and val[0] == "unpack":
+        if index is None or val[2] != index:
+            return False
+        val = val[1]
+    elif index is not None:
+        return False
+    site = ctx.cg.site_of(fn, val) if isinstance(val, ast.Call) else None
+    return site is not None and site.calls_short(ctx.ix, short)
+
+
+def first_node(ctx, fn, astnode):
+    ns = ctx.nodes_of(fn, astnode)
+    return ns[0] if ns else None
+
+
+def inlined_guards(ctx, fn, cfg_node, kinds=ALL_KINDS, kill=True):
+    """Guards at a node as (source text with single-definition locals inlined and blanks removed, polarity):
+    independent of how intermediate locals are spelled (`x = a.f(); y = x & s; if y:` -> `a.f()&s`)."""
+    g = ctx.guards(fn, kinds, kill)
+    out = set()
+    for key, pol, e in g.at(cfg_node):
+        tnode = g.origin[key][0] if key in g.origin else _test_node_for(ctx, fn, e)
+        try:
+            k2, p2, e2 = canon(inline_locals(ctx, fn, e, tnode)) if tnode is not None else (key, True, e)
+        except RecursionError:
+            k2, p2 = key, True
+        out.add((k2.replace(" ", ""), pol if p2 else not pol))
+    return out
+
+
+def inlined(ctx, fn, expr, at_node):
+    return unparse(inline_locals(ctx, fn, expr, at_node)).replace(" ", "") if expr is not None else None
+
+
+def edge_cond_inlined(ctx, fn, node, kind, cond):
+    """(text, polarity) of the branch condition taken on a T/F edge, canonical, locals inlined, blanks removed."""
+    k2, p2, _ = canon(inline_locals(ctx, fn, cond, node))
+    return k2.replace(" ", ""), (kind == "T") == p2
+
+
+def comp_norm(node):
+    """Source of a single-generator comprehension with its variable renamed to `_` and blanks removed."""
+    import re as _re
+
+    if not isinstance(node, (ast.ListComp, ast.SetComp, ast.GeneratorExp, ast.DictComp)) or len(node.generators) != 1:
+        return unparse(node).replace(" ", "") if node is not None else None
+    tgt = node.generators[0].target
+    txt = unparse(node)
+    for nm in [x.id for x in ast.walk(tgt) if isinstance(x, ast.Name)]:
+        txt = _re.sub(rf"\b{_re.escape(nm)}\b", "_", txt)
+    return txt.replace(" ", "")
+
+
+def unused_loop_variables(fn_node):
+    """(for-node, name) for loop control variables never read in the loop body (flake8-bugbear B007): the body then
+    works on whatever an outer binding of a similar name holds - typically the first element for every iteration."""
+    out = []
+    for n in ast.walk(fn_node):
+        if isinstance(n, (ast.For, ast.AsyncFor)):
+            names = [x.id for x in ast.walk(n.target) if isinstance(x, ast.Name) and not x.id.startswith("_")]
+            used = {x.id for b in n.body + n.orelse for x in ast.walk(b) if isinstance(x, ast.Name) and isinstance(x.ctx, ast.Load)}
+            out += [(n, v) for v in names if v not in used]
+    return out
